@@ -389,6 +389,7 @@ func (s *Storer) GetAofWritter(r io.Reader, offset int64) (*AofWriter, error) {
 
 	aofSeg := &dataSetAof{
 		left: offset,
+		size: -1, // being written, like the segments the writer opens later : not to be verified against its header
 	}
 	s.dataSetMux.Lock()
 	s.dataSet.AppendAof(aofSeg)
